@@ -194,7 +194,10 @@ Definition run_C08 (x : sx) : sx :=
   | 6 =>
       let s := run (map op_of_sx (sx_list (sx_nth 1 x))) in
       let a := addq_of_sx (sx_nth 2 x) in
-      let k := known_class s (add_sub a) in
+      let k := match known_class s (add_sub a) with
+               | 0 => if any_noncanon (add_sub a) then 5 else 0
+               | k => k
+               end in
       let '(s2, o2) := spec_add s a in
       let spec := L [out_code o2; state_sx s2 false] in
       (* query_mut, then the same store changed by the direct calls on the rows of the sub-query *)
